@@ -2,7 +2,10 @@
 
    leg "lp"     case  #bytes                    result ( #lp-of-bytes 1 )
    leg "key"    case  ( (label..) ( req ... ) )            result ( pre ... )        req = ( digest plusplus Lang (arg..) (extra..) ((k v)..) pp )
-   leg "ppkey"  case  ( (label..) ( preq ... ) )            result ( pre|none ... )   preq = ( digest plusplus Lang (arg..) (extra..) ((k v)..) path input ignore_time )
+   leg "ppkey"  case  ( (label..) ( preq ... ) )   result ( pre|none ... )
+                preq = ( digest plusplus Lang (arg..) (extra..) ((k v)..) path input ignore_time
+                         mtime_secs mtime_nanos sde (year month day) )      sde = () | ( #SOURCE_DATE_EPOCH )
+   leg "ppkey-root"  as ppkey (the harness runs it inside a private root directory)
    pre   = ( piece ... )      the pre-image fed to BLAKE3, component by component
    piece = #bytes  |  ( #contents )   the latter standing for the 64 hex characters of the digest of contents
    (the harness leg "hashpre" turns a pre into a key with the real BLAKE3 and util::hex) *)
@@ -25,11 +28,15 @@ Definition dec_req (x : sx) : option creq :=
   | SL [d; p; l; SL a; SL e; SL v; t] =>
       Some {| digest := get_B d; plusplus := get_bool p; lang := get_B l; args := map get_B a;
               extra := map get_B e; env := map dec_env v; pp := get_B t;
-              path := []; input := []; ignore_time := false |}
-  | SL [d; p; l; SL a; SL e; SL v; pa; inp; ig] =>
+              path := []; input := []; ignore_time := false;
+              date := (0, 0, 0); sde := None; mtime := (0, 0) |}
+  | SL [d; p; l; SL a; SL e; SL v; pa; inp; ig; ms; mn; SL sd; SL [y; mo; da]] =>
       Some {| digest := get_B d; plusplus := get_bool p; lang := get_B l; args := map get_B a;
               extra := map get_B e; env := map dec_env v; pp := [];
-              path := get_B pa; input := get_B inp; ignore_time := get_bool ig |}
+              path := get_B pa; input := get_B inp; ignore_time := get_bool ig;
+              date := (get_N y, get_N mo, get_N da);
+              sde := match sd with x :: _ => Some (get_B x) | [] => None end;
+              mtime := (get_N ms, get_N mn) |}
   | _ => None
   end.
 
@@ -65,4 +72,5 @@ Definition dispatch (leg : list N) (x : sx) : sx :=
   if bytes_eqb leg (bs "lp") then SL [SB (lp (get_B x)); SN 1]
   else if bytes_eqb leg (bs "key") then SL (map run_key (group_of x))
   else if bytes_eqb leg (bs "ppkey") then SL (map run_ppkey (group_of x))
+  else if bytes_eqb leg (bs "ppkey-root") then SL (map run_ppkey (group_of x))
   else err "unknown leg".
